@@ -14,9 +14,12 @@ HDR_DRV = ('From Coq Require Import List NArith.\nImport ListNotations.\nFrom VM
            'From VDrv Require Import MemCopy.\nOpen Scope N_scope.\n')
 COQ_TARGETS = ['props/C11.vo']
 
-KNOWN_FLUSH_LAST = ('a copy command whose flush response arrives after its last copy response never completes '
+KNOWN_KEYS = {}
+KNOWN_FLUSH_LAST = ('[flush-response-last] a copy command whose flush response arrives after its last copy response never completes '
                     '(processFlushReturn does not test for completion)')
-KNOWN_ZERO_LEN = 'a zero-length copy through the default middleware never completes (no request is sent, the queue stays running)'
+KNOWN_FREED = ('[remove-freed-buffers-panic] a flushing D2H copy panics in Context.removeFreedBuffers (slice bounds out of range) '
+               'when two or more freed buffers are still listed')
+KNOWN_ZERO_LEN = '[zero-length-copy-hangs] a zero-length copy through the default middleware never completes (no request is sent, the queue stays running)'
 
 
 # ------------------------------------------------------------------ monitors
@@ -168,13 +171,16 @@ def mon_drv(case):
     injective = len({p['p'] for p in case['pt']}) == len(case['pt'])
     for k, op in enumerate(case['ops']):
         kind = op['op']
-        if kind in ('dirty', 'setup'):
+        if kind in ('dirty', 'setup', 'free'):
             if op['crash']:
                 return 'setting the case up panicked', known
             continue
         n = len(op['data']) if kind in ('h2d', 'accw') else op['n']
         mapped = all(tr(a) is not None for a in ({op['addr'] + i for i in range(0, n, ps)} | ({op['addr'] + n - 1} if n else set())))
         if op['crash']:
+            if mapped and kind == 'd2h' and not case['magic'] and sum(1 for b in op['bufs'] if b.get('freed')) >= 2 and \
+               any(b['dirty'] and max(b['start'], op['addr']) < min(b['start'] + b['size'], op['addr'] + n) for b in op['bufs']):
+                return None, KNOWN_FREED
             if mapped:
                 return 'operation %d (%s %#x +%d) panicked although every page is mapped' % (k, kind, op['addr'], n), known
             return None, known            # nothing after a panic is judged
@@ -268,6 +274,44 @@ def run_impl(binary, cases=None, seed=1, n=(60, 40, 200)):
     return out, log
 
 
+PLATFORM_SAMPLES = [
+    # (name, package, arguments): full timing platform (driver, command processor, DMA engine, caches, DRAM)
+    ('memcopy-timing', './amd/samples/memcopy', ['-timing', '-verify']),
+    ('relu-timing', './amd/samples/relu', ['-timing', '-verify']),      # copy - kernel - copy: the D2H needs the flush
+    ('memcopy-emu', './amd/samples/memcopy', ['-verify']),
+]
+
+
+def platform_samples(only=None):
+    """Sampled end-to-end validation: H2D / kernel / D2H on the real platforms.  Returns [(name, verdict, log)],
+    verdict in ok / fail / build-failed."""
+    out = []
+    bdir = os.path.join(vlib.BUILD, 'c11_samples' + vlib._repo_tag())
+    os.makedirs(bdir, exist_ok=True)
+    env = vlib.go_env()
+    env.pop('GOFLAGS_EXTRA', None)
+    built = {}
+    for name, pkg, args in PLATFORM_SAMPLES:
+        if only and name != only:
+            continue
+        binp = os.path.join(bdir, os.path.basename(pkg))
+        if pkg not in built:
+            with vlib.Lock('gobuild' + vlib._repo_tag()):
+                rc, log = vlib.run([vlib.go_bin(), 'build', '-o', binp, pkg], cwd=vlib.REPO, env=env, timeout=900)
+            built[pkg] = (rc, log)
+        rc, log = built[pkg]
+        if rc != 0:
+            out.append((name, 'build-failed', log[-1500:]))
+            continue
+        scratch = os.path.join(vlib.BUILD, 'c11_platform_%d' % os.getpid())
+        os.makedirs(scratch, exist_ok=True)
+        rc, log = vlib.run([binp] + args, cwd=scratch, timeout=300)
+        import shutil
+        shutil.rmtree(scratch, ignore_errors=True)
+        out.append((name, 'ok' if rc == 0 and 'Passed!' in log else 'fail', log[-1500:]))
+    return out
+
+
 def merge(a, b):
     return {k: a.get(k, []) + b.get(k, []) for k in ('dma', 'drv', 'ovl')}
 
@@ -280,7 +324,7 @@ def drv_nontrivial(c):
     ps = 1 << c['lg']
     for o in c['ops']:
         n = len(o['data']) if o['op'] in ('h2d', 'accw') else o.get('n', 0)
-        if o['op'] != 'dirty' and n and (o['addr'] % ps) + n > ps:
+        if o['op'] not in ('dirty', 'free') and n and (o['addr'] % ps) + n > ps:
             return True
     return False
 
@@ -302,7 +346,7 @@ def main(argv):
                        'the memory answers each sub-request at most once with the matching response type (hostile answers: model and '
                        'implementation agree on the panic, no property is claimed)']
     thorough = vlib.tier() == 'thorough'
-    n = (600, 300, 2000) if thorough else (70, 50, 300)
+    n = (600, 300, 2000) if thorough else (50, 40, 300)
 
     replay_file = None
     if '--replay' in argv:
@@ -365,7 +409,7 @@ def main(argv):
         if m:
             bad.append(('drv', i, m))
     for k in sorted(known_seen):
-        rep.known_finding(k)
+        rep.known_finding(k, key=k[1:k.index(']')])
 
     # ---- correspondence with the models
     from concurrent.futures import ThreadPoolExecutor
@@ -379,6 +423,13 @@ def main(argv):
     rep.obligation('correspondence: %d DMA port histories evaluated by the model' % len(cases['dma']), ok1 and not mism1)
     rep.obligation('correspondence: %d driver/accessor cases evaluated by the model' % len(cases['drv']), ok2 and not mism2)
     rep.obligation('correspondence: %d memRangeOverlap samples evaluated by the model' % len(cases['ovl']), ok3 and not mism3)
+
+    plat = []
+    if not replay_file or 'platform' in json.load(open(replay_file)):
+        only = json.load(open(replay_file)).get('platform') if replay_file else None
+        plat = platform_samples(only)
+        rep.obligation('sampled platform runs verify their data: ' + ', '.join('%s=%s' % (n_, v) for n_, v, _ in plat),
+                       all(v == 'ok' for _, v, _ in plat))
 
     hist = collections.Counter(e['e'] for c in cases['dma'] for e in c['events'])
     ophist = collections.Counter(o['op'] + ('/magic' if c['magic'] else '/default') for c in cases['drv'] for o in c['ops'])
@@ -400,18 +451,26 @@ def main(argv):
         'dma_crashes': sum(1 for c in cases['dma'] if any(e.get('crash') for e in c['events'])),
         'dma_port_full_refusals': sum(1 for c in cases['dma'] for e in c['events'] if e.get('acc') is False),
         'driver_op_histogram': dict(ophist),
-        'driver_page_crossing_ops': sum(1 for c in cases['drv'] for o in c['ops'] if o['op'] != 'dirty' and
+        'driver_page_crossing_ops': sum(1 for c in cases['drv'] for o in c['ops'] if o['op'] not in ('dirty', 'free') and
                                         ((o['addr'] % (1 << c['lg'])) + (len(o['data']) if o['op'] in ('h2d', 'accw') else o['n']) > (1 << c['lg']))),
         'driver_multi_gpu_ops': sum(1 for c in cases['drv'] for o in c['ops'] if len({r['dev'] for r in o['reqs']}) > 1),
         'driver_flushes': sum(1 for c in cases['drv'] for o in c['ops'] if o['flush']),
         'driver_panics': sum(1 for c in cases['drv'] for o in c['ops'] if o['crash']),
         'overlap_samples': len(cases['ovl']),
+        'platform_samples': {n_: v for n_, v, _ in plat},
         'model_mismatches': len(mism1) + len(mism2) + len(mism3), 'monitor_failures': len(bad),
     })
     rep.samples = [{'kind': 'dma', 'lg': c['lg'], 'events': [e['e'] for e in c['events'][:30]]} for c in cases['dma'][:1]] + \
                   [{'kind': 'drv', 'lg': c['lg'], 'magic': c['magic'], 'ngpu': c['ngpu'],
                     'ops': [(o['op'], o['addr'], len(o['data']) or o['n'], o['typ']) for o in c['ops']]} for c in cases['drv'][:2]]
 
+    platbad = [(n_, v, l) for n_, v, l in plat if v != 'ok']
+    if platbad and not bad:
+        n_, v, l = platbad[0]
+        args = [a for nm, pk, a in PLATFORM_SAMPLES if nm == n_][0]
+        msg = 'platform sample %s %s: %s' % (n_, ' '.join(args), 'did not verify / did not finish' if v == 'fail' else 'does not build')
+        rep.violation({'property': PROP, 'what': msg, 'platform': n_, 'log': l, 'cases': {'dma': [], 'drv': [], 'ovl': []},
+                       'replay_cmd': './check C11 --replay <this file>'}, text=msg, nofail=(v != 'fail'))
     if bad:
         kind, i, msg = bad[0]
         c = cases[kind][i]
